@@ -24,7 +24,6 @@ class MessageExtractor:
     def extract_nodes(self, nodes):
         translator_comments = []
         in_translator_comments = False
-        input_encoding = self.config["encoding"] or "ascii"
         comment_tags = list(
             filter(None, re.split(r"\s+", self.config["comment-tags"]))
         )
@@ -102,7 +101,7 @@ class MessageExtractor:
             ]
 
             if isinstance(code, str) and self.use_bytes:
-                code = code.encode(input_encoding, "backslashreplace")
+                code = code.encode("utf-8")
 
             used_translator_comments = False
             # We add extra newline to work around a pybabel bug
